@@ -39,4 +39,4 @@ Proof. vm_compute. repeat split; reflexivity. Qed.
 
 (* axioms the property theorems of this file depend on (one traversal for all of them) *)
 Definition C04_theorems := (@C04_validate, @C04_extract, @C04_satisfies, @C04_satisfies_cases).
-Print Assumptions C04_theorems.
+Redirect "assumptions/C04" Print Assumptions C04_theorems.
